@@ -1,2 +1,18 @@
 //! Read-only probe (child module of `ntp-proto/src/keyset.rs`), compiled only under
-//! `--cfg pendulum_project_ntpd_rs_verif`. Owned by the world that needs it; must never mutate state.
+//! `--cfg pendulum_project_ntpd_rs_verif`. Owned by world w1n; never mutates state.
+
+use super::KeySet;
+use crate::packet::Cipher;
+use crate::verif::keyset::KeySetView;
+
+impl KeySet {
+    /// Number of keys, index of the primary key and id offset (C26 "issued under the newest key").
+    pub fn verif_view(&self) -> KeySetView {
+        KeySetView {
+            n_keys: self.keys.len(),
+            primary: self.primary,
+            id_offset: self.id_offset,
+            keys: self.keys.iter().map(|k| k.key_bytes().to_vec()).collect(),
+        }
+    }
+}
